@@ -431,12 +431,30 @@ class NPshim:
     @staticmethod
     def exp(x): return lift(x).exp()
     @staticmethod
-    def sqrt(x): return lift(x).sqrt()
+    def sqrt(x):
+        # sqrt(maximum(x, 0)): the clamp guards a radicand that is >= 0 in exact arithmetic against rounding.  Coq's sqrt is total
+        # with sqrt x = 0 for x <= 0, so sqrt(maximum(x, 0)) and sqrt x are the SAME real function: the trace records sqrt x.
+        if isinstance(x, Clamped): return lift(x.x).sqrt()
+        return lift(x).sqrt()
+    @staticmethod
+    def maximum(a, b):
+        a, b = (a, b) if not (isinstance(a, (int, float, Fraction)) and not isinstance(b, (int, float, Fraction))) else (b, a)
+        z = lift(b)
+        if not (isinstance(z, E) and z.op == "q" and z.args[0] == 0):
+            raise TraceError("numpy.maximum is only understood as a clamp at 0")
+        return Clamped(a)
     @staticmethod
     def conj(x): return lift(x).conj()
 
     def __getattr__(self, name):
         raise TraceError("numpy.%s is not defined on the symbolic domain" % name)
+
+
+class Clamped:
+    """maximum(x, 0): meaningful only as the direct argument of sqrt (anything else raises, so the trace fails closed)"""
+    def __init__(self, x): self.x = x
+    def _no(self, *a, **k): raise TraceError("maximum(x, 0) used outside sqrt")
+    __add__ = __radd__ = __sub__ = __rsub__ = __mul__ = __rmul__ = __truediv__ = __rtruediv__ = __pow__ = __neg__ = __lt__ = __gt__ = __le__ = __ge__ = __float__ = _no
 
 
 def sym_expm(A):
@@ -508,7 +526,11 @@ def ev(e, env, defs, intf=None):
         if n in env: return env[n]
         if n in defs:
             kind, a = defs[n]
-            if kind == "sqrt": r = cmath.sqrt(ev(a[0], env, defs, intf)); r = r.real if abs(r.imag) == 0 else r
+            if kind == "sqrt":
+                x = ev(a[0], env, defs, intf)
+                if isinstance(x, complex) and x.imag == 0: x = x.real
+                # a real radicand that is negative by rounding: 0, as in Coq (sqrt x = 0 for x <= 0) and in the clamped code
+                r = 0.0 if (not isinstance(x, complex) and x < 0) else cmath.sqrt(x); r = r.real if abs(r.imag) == 0 else r
             elif kind == "expreal": r = cmath.exp(ev(a[0], env, defs, intf))
             elif kind == "inv": r = 1 / ev(a[0], env, defs, intf)
             elif kind == "prod": r = ev(a[0], env, defs, intf)
